@@ -115,7 +115,7 @@ Record obs := mk_obs {
   o_status_ok : bool;      (* `jj status` exits 0 right away *)
   o_recovered : bool;      (* `jj workspace update-stale` exits 0 and `jj status` exits 0 afterwards *)
   o_files_kept : bool;     (* every file on disk after the crash is still there or stored in a commit some operation shows *)
-  o_state : nat            (* described commits + bookmarks after recovery: 0 = all of the state before the command present, 1 = all of the state after it, 2 = neither *)
+  o_state : nat            (* described commits + bookmarks after recovery: 0 = all of the state before the command present, 1 = all of the state after it, 3 = both (recovery kept a divergent copy), 2 = neither *)
 }.
 
 Record case := mk_case {
@@ -146,6 +146,7 @@ Definition pred_ok (c : case) (o : obs) : bool :=
   && (o_checkout o =? d_checkout d)
   && (negb (wc_synced d) || o_status_ok o)
   && (c_colocated c    (* Git's own refs are not part of the model: no prediction there *)
+      || (o_state o =? 3)
       || (o_state o =? (if c_sig_changed c && (current d =? length (c_dag c) - 1) then 1 else 0))).
 
 Definition corr (c : case) : bool :=
@@ -166,7 +167,7 @@ Definition obs_okb (c : case) (o : obs) : bool :=
   && ancb (c_dag c) (c_head_before c) (o_current o)
   && (o_status_ok o || o_recovered o)
   && o_files_kept o
-  && (o_state o <? 2).
+  && negb (o_state o =? 2).
 
 Definition okb (c : case) : bool :=
   wf_dagb (c_dag c) && forallb (obs_okb c) (c_obs c) && c_tables_ok c.
